@@ -79,7 +79,7 @@ Proof.
 Qed.
 
 Lemma code_at_range c pc : 0 <= code_at c pc < 256.
-Proof. unfold code_at. destruct (pc <? 0); [lia|]. apply Z.mod_pos_bound. lia. Qed.
+Proof. unfold code_at. destruct ((pc <? 0) || (zlen c <=? pc)); [lia|]. apply Z.mod_pos_bound. lia. Qed.
 
 Lemma wf_lookup tab opc : wf_table tab = true -> 0 <= opc < 256 ->
   e_def (nth (Z.to_nat opc) tab noE) = true -> exists x, row_facts opc (nth (Z.to_nat opc) tab noE) x.
@@ -234,9 +234,9 @@ Proof. unfold nonneg_stack. intros. apply Forall_app. split; assumption. Qed.
 
 Lemma code_at_out c pc : pc < 0 \/ zlen c <= pc -> code_at c pc = 0.
 Proof.
-  unfold code_at, zlen. intros [H|H].
+  unfold code_at. intros [H|H].
   - destruct (Z.ltb_spec pc 0); [reflexivity|lia].
-  - destruct (Z.ltb_spec pc 0); [reflexivity|]. rewrite nth_overflow by lia. reflexivity.
+  - destruct (Z.leb_spec (zlen c) pc); [rewrite orb_true_r; reflexivity|lia].
 Qed.
 
 Lemma memok_zero : memok 0 0 0.
